@@ -154,8 +154,12 @@ hwloc_diff_trees(hwloc_topology_t topo1, hwloc_obj_t obj1,
 
 	/* gp_index don't have to be strictly identical */
 
-	if ((!obj1->name) != (!obj2->name)
-	    || (obj1->name && strcmp(obj1->name, obj2->name))) {
+	if ((!obj1->name) != (!obj2->name))
+		/* a name that is set on one side only cannot be represented:
+		 * apply and the XML export need both strings
+		 */
+		goto out_too_complex;
+	if (obj1->name && strcmp(obj1->name, obj2->name)) {
                 err = hwloc_append_diff_obj_attr_string(topo1, obj1,
 						       HWLOC_TOPOLOGY_DIFF_OBJ_ATTR_NAME,
 						       NULL,
